@@ -144,8 +144,8 @@ func init() {
 					}
 					w.Bucket("cold-start")
 				}},
-				{Name: "universe-rows", N: rows / step, Run: func(w *mon.W, idx int) { c09Row(w, idx*step) }},
-				{Name: "keyzoo", N: c.Pick(12000, 1500000) / step, Run: c09KeyZoo},
+				{Name: "universe-rows", Env: 2, N: rows / step, Run: func(w *mon.W, idx int) { c09Row(w, idx*step) }},
+				{Name: "keyzoo", Env: 4, N: c.Pick(12000, 1500000) / step, Run: c09KeyZoo},
 			}
 		},
 	})
